@@ -70,7 +70,7 @@ func (g *Gen) translate(fn *ssa.Function) (t *fnTrans, err error) {
 		vals: map[ssa.Value][]string{}, locs: map[ssa.Value]*loc{}, out: map[*ssa.BasicBlock]*State{},
 		edge: map[[2]int]string{}, names: map[string][]nameRef{}, local: map[ssa.Value]bool{},
 		closures: map[ssa.Value]*ssa.MakeClosure{}, sites: map[ssa.Instruction]string{}, siteState: map[string]*State{},
-		uncontracted: map[string]bool{}, rangeOf: map[ssa.Value]*ssa.Range{}, stable: map[ssa.Value]string{}, ghostVals: map[string]sval{}, usedContracts: map[string]bool{}, capturedBorrow: map[ssa.Value]bool{}}
+		uncontracted: map[string]bool{}, rangeOf: map[ssa.Value]*ssa.Range{}, stable: map[ssa.Value]string{}, ghostVals: map[string]sval{}, usedContracts: map[string]bool{}, capturedBorrow: map[ssa.Value]bool{}, selIdx: map[string]string{}}
 	t.contract = g.contractOf(fn)
 	defer func() {
 		if r := recover(); r != nil {
